@@ -1,30 +1,128 @@
-(* C02 (own legs) model: what a DEFAULT-initialised library object holds in the member that its
-   observers read first.  A member without initialiser is `Uninit` (indeterminate): reading it is
-   undefined behaviour; the harness makes the outcome deterministic by pre-filling the storage with
-   0xFF bytes, which an `Uninit` member of width `bits` then reads back as 2^bits - 1.
-   The other obligations of C02 (no out-of-bounds access, no signed overflow, under the documented
-   preconditions) are theorems about the component models and are re-exported in Properties.v. *)
+(* C02 (own legs) model: what a DEFAULT-initialised library object (`T x;`, placement `new (p) T` — no () and no {})
+   holds in the members its observers read.  A member that has neither a default member initialiser nor a
+   mem-initialiser in the default constructor is [Uninit] (indeterminate): reading it is undefined behaviour; the
+   harness makes the outcome deterministic by pre-filling the storage with 0xFF bytes, which an [Uninit] member of
+   width [bits] then reads back as 2^bits - 1.
+   One line per object kind, transcribed from the headers (file: member, how it is initialised):
+     static_vector      _vector/static_vector.hpp: size_type _size = 0 (trivial storage) / _size = 0 (non-trivial)
+     inplace_vector     _inplace_vector/inplace_vector.hpp: internal_size_t _size;        -- NO initialiser
+     inplace_string     _string/basic_inplace_string.hpp: layout_type _storage{}; tiny layout (Capacity < 16):
+                        array<Char, Capacity+1> _buffer{} and the constructor stores Capacity in the last character
+                        (size = Capacity - that = 0); normal layout: internal_size_t _size{}, _buffer{}
+     string_view        _string_view/basic_string_view.hpp: _begin = nullptr, _size = 0
+     span               _span/span.hpp: _data{nullptr}, _size{0}
+     static_set         _set/static_set.hpp: a static_vector member            flat_set / flat_multiset: the container member
+     stack              _stack/stack.hpp: the container member
+     optional           _optional/optional.hpp: a variant<nullopt_t, T> member (index 0 = disengaged)
+     variant            _variant/variant.hpp: variant() : variant(in_place_index<0>) -- index 0, first alternative value-initialised
+     expected           _expected/expected.hpp: expected() : variant<T,E>(in_place_index<0>) -- has a value, value-initialised
+     bitset             _bitset/basic_bitset.hpp: array<Word, N> _words{}
+     inplace_function   _functional/inplace_function.hpp: inplace_function() : _vtable{&empty_vtable}
+     pair, tuple        pair() : first{}, second{};  tuple() : _impl() (leaves value-initialised)
+     mdspan, extents    _mdspan: _ptr{}, _map{}, _acc{};  array<IndexType, rank_dynamic> _extents{}
+     chrono::duration   _chrono/duration.hpp: rep _rep{}
+   The other obligations of C02 (no out-of-bounds access, no signed overflow, no use of dead storage under the
+   documented preconditions) are theorems about the component models, re-exported in Properties_*.v. *)
 From Tetl Require Import Lib.Base.
 Local Open Scope Z_scope.
 
 Inductive cell := Uninit (bits : Z) | Val (v : Z).
 
 Inductive obj :=
-| StaticVectorTrivial | StaticVectorNonTrivial     (* size_type _size = 0; *)
-| InplaceVectorTrivial | InplaceVectorNonTrivial   (* internal_size_t _size;   -- no initialiser *)
-| InplaceStringTiny | InplaceStringNormal          (* _storage{} / size member initialised *)
-| StringView | Span                                 (* _size = 0 / _size{} *)
-| StaticSet | FlatSet | Optional | Bitset.
+| StaticVectorTrivial | StaticVectorNonTrivial
+| InplaceVectorTrivial | InplaceVectorNonTrivial
+| InplaceStringTiny | InplaceStringNormal
+| StringView | Span | Mdspan
+| StaticSet | FlatSet | FlatMultiset | Stack
+| Optional | OptionalNonTrivial | Variant | Expected
+| Bitset | InplaceFunction | Pair | Tuple | Extents | Duration.
 
-(* the member holding the size (engaged flag / word array for the last two), capacity 4 => 8-bit size types *)
-Definition size_member (o : obj) : cell :=
+(* how the observed members are printed *)
+Inductive shape :=
+| Sized        (* [size]            -> size, empty()                       *)
+| SizedTerm    (* [size; c_str()[0]] -> size, empty(), terminator           *)
+| SizedPtr     (* [size; data()]     -> size, empty(), data() == nullptr    *)
+| Raw.         (* the members as they are                                   *)
+
+Definition shape_of (o : obj) : shape :=
   match o with
-  | InplaceVectorTrivial | InplaceVectorNonTrivial => Uninit 8
-  | _ => Val 0
+  | StaticVectorTrivial | StaticVectorNonTrivial | InplaceVectorTrivial | InplaceVectorNonTrivial
+  | StaticSet | FlatSet | FlatMultiset | Stack => Sized
+  | InplaceStringTiny | InplaceStringNormal => SizedTerm
+  | StringView | Span | Mdspan => SizedPtr
+  | _ => Raw
+  end.
+
+(* the members the observers read, in printing order; capacity 4 for the containers => 8-bit size types *)
+Definition members (o : obj) : list cell :=
+  match o with
+  | InplaceVectorTrivial | InplaceVectorNonTrivial => [Uninit 8]
+  | StaticVectorTrivial | StaticVectorNonTrivial | StaticSet | FlatSet | FlatMultiset | Stack => [Val 0]
+  | InplaceStringTiny | InplaceStringNormal => [Val 0; Val 0]          (* size, character at index size() *)
+  | StringView | Span | Mdspan => [Val 0; Val 0]                       (* size, data pointer *)
+  | Optional | OptionalNonTrivial => [Val 0]                           (* has_value() *)
+  | Variant => [Val 0; Val 0]                                          (* index(), value of alternative 0 *)
+  | Expected => [Val 1; Val 0]                                         (* has_value(), value *)
+  | Bitset => [Val 0; Val 1]                                           (* count(), none() *)
+  | InplaceFunction => [Val 0]                                         (* operator bool *)
+  | Pair | Tuple | Extents => [Val 0; Val 0]                           (* the two members / extents *)
+  | Duration => [Val 0]                                                (* count() *)
   end.
 
 Definition read (c : cell) : res Z := match c with Val v => Ok v | Uninit _ => UB UninitRead end.
 (* what the 0xFF-poisoned harness observes *)
 Definition read_poisoned (c : cell) : Z := match c with Val v => v | Uninit b => 2 ^ b - 1 end.
 
-Definition default_size (o : obj) : res Z := read (size_member o).
+Fixpoint read_all (cs : list cell) : res (list Z) :=
+  match cs with
+  | [] => Ok []
+  | c :: t => match read c with
+              | Ok v => match read_all t with Ok vs => Ok (v :: vs) | Contract => Contract | UB k => UB k | OutOfFuel => OutOfFuel end
+              | Contract => Contract | UB k => UB k | OutOfFuel => OutOfFuel
+              end
+  end.
+
+Definition b2z (b : bool) : Z := if b then 1 else 0.
+
+Definition present (sh : shape) (vs : list Z) : list Z :=
+  match sh, vs with
+  | Sized, [s] => [s; b2z (s =? 0)]
+  | SizedTerm, [s; t] => [s; b2z (s =? 0); t]
+  | SizedPtr, [s; p] => [s; b2z (s =? 0); b2z (p =? 0)]
+  | _, _ => vs
+  end.
+
+(* model: the observation of a default-initialised object, UB when an indeterminate member is read *)
+Definition default_obs (o : obj) : res (list Z) :=
+  match read_all (members o) with
+  | Ok vs => Ok (present (shape_of o) vs)
+  | Contract => Contract | UB k => UB k | OutOfFuel => OutOfFuel
+  end.
+(* the same as the poisoned harness sees it *)
+Definition default_obs_poisoned (o : obj) : list Z := present (shape_of o) (map read_poisoned (members o)).
+
+(* specification: the state the standard (or, for the etl-only types, the documentation) gives a
+   default-constructed object: empty containers / views, a disengaged optional, variant and expected holding a
+   value-initialised first alternative / value, no bit set, an empty function, value-initialised members *)
+Definition empty_state (o : obj) : list Z :=
+  match o with
+  | StaticVectorTrivial | StaticVectorNonTrivial | InplaceVectorTrivial | InplaceVectorNonTrivial
+  | StaticSet | FlatSet | FlatMultiset | Stack => [0; 1]
+  | InplaceStringTiny | InplaceStringNormal => [0; 1; 0]
+  | StringView | Span | Mdspan => [0; 1; 1]
+  | Optional | OptionalNonTrivial => [0]
+  | Variant => [0; 0]
+  | Expected => [1; 0]
+  | Bitset => [0; 1]
+  | InplaceFunction => [0]
+  | Pair | Tuple | Extents => [0; 0]
+  | Duration => [0]
+  end.
+
+Definition default_size (o : obj) : res Z :=
+  match members o with c :: _ => read c | [] => Ok 0 end.
+
+Definition all_objs : list obj :=
+  [StaticVectorTrivial; StaticVectorNonTrivial; InplaceVectorTrivial; InplaceVectorNonTrivial;
+   InplaceStringTiny; InplaceStringNormal; StringView; Span; Mdspan; StaticSet; FlatSet; FlatMultiset; Stack;
+   Optional; OptionalNonTrivial; Variant; Expected; Bitset; InplaceFunction; Pair; Tuple; Extents; Duration].
